@@ -151,17 +151,40 @@ func retValue(ret *ssa.Return, i int) ssa.Value {
 	if !ok || u.Op != token.MUL {
 		return v
 	}
-	al, ok := u.X.(*ssa.Alloc)
-	if !ok {
+	instrs := ret.Block().Instrs
+	if al, ok := u.X.(*ssa.Alloc); ok {
+		for k := len(instrs) - 1; k >= 0; k-- {
+			if st, ok := instrs[k].(*ssa.Store); ok && st.Addr == ssa.Value(al) {
+				// the spilled value may itself be a reloaded field: resolve once more
+				if uu, ok := st.Val.(*ssa.UnOp); ok && uu.Op == token.MUL {
+					return reloadInBlock(uu, instrs, k)
+				}
+				return st.Val
+			}
+		}
 		return v
 	}
-	instrs := ret.Block().Instrs
-	for k := len(instrs) - 1; k >= 0; k-- {
-		if st, ok := instrs[k].(*ssa.Store); ok && st.Addr == ssa.Value(al) {
+	return reloadInBlock(u, instrs, len(instrs))
+}
+
+// reloadInBlock: a load of a field that was stored earlier in the same block yields the stored value.
+func reloadInBlock(u *ssa.UnOp, instrs []ssa.Instruction, before int) ssa.Value {
+	if _, isField := u.X.(*ssa.FieldAddr); !isField {
+		return u
+	}
+	d := desc(u.X)
+	pos := before
+	for k, ins := range instrs {
+		if ins == ssa.Instruction(u) {
+			pos = k
+		}
+	}
+	for k := pos - 1; k >= 0; k-- {
+		if st, ok := instrs[k].(*ssa.Store); ok && desc(st.Addr) == d {
 			return st.Val
 		}
 	}
-	return v
+	return u
 }
 
 // acceptDemands returns (demands, accepting?) for a return.
